@@ -148,7 +148,7 @@ Section BRUBridge.
         end.
   Proof.
     intros c d avail (d1 & w & -> & Hd1 & Hc) Hav HG. cbn [BM buf_machine mtake].
-    destruct (bcround sep limit keep_end dec sizehint sep_ne limit_ok c w avail Hc Hav) as (m & off & Hm & Hinv & Hfm & Hround).
+    destruct (bcround sep limit keep_end dec sizehint sep_ne limit_ok c w avail Hc Hav) as (m & off & Hm & Hinv & Hfm & _ & Hround).
     cbv zeta in Hround.
     destruct (bc_get_write_buffer F sizehint c) as [c1 v].
     destruct Hround as (-> & Hnext & Hdne & Hdl).
